@@ -790,12 +790,12 @@ Proof.
 Qed.
 
 Lemma pg_insert_ok : forall w d h pos,
-  pg_inv (pg_get w d) -> pd_all (pg_get w d) <> [] -> pg_operand_ok w d h ->
+  pg_inv (pg_get w d) -> pd_all (pg_get w d) <> [] -> pg_operand_ok w d h -> pg_insertable w d h = true ->
   (0 <= pos <= pg_len (pd_all (pg_get w d)))%Z ->
   exists p', pg_insert w d h pos = (pg_put w d p', None) /\ pg_inv p' /\ pd_all p' <> [] /\
     pg_marks p' = pgsp_insert (pg_marks (pg_get w d)) (Z.to_nat pos) (pg_operand_mark w h).
 Proof.
-  intros w d h pos Hi Hne Hop Hpos. unfold pg_insert.
+  intros w d h pos Hi Hne Hop Hins Hpos. unfold pg_insert. rewrite Hins. cbn [negb].
   rewrite pg_flatten_inv by assumption. rewrite pg_put_get.
   unfold pg_operand_ok, pg_operand_mark in *.
   destruct (pg_norm w h) as [v|b i] eqn:En.
@@ -904,12 +904,14 @@ Definition pg_adm (w : pg_world) (o : pg_op) : Prop :=
 Definition pg_abs (w : pg_world) (o : pg_op) : pg_sop :=
   match o with
   | PoAddPage d h first | PoHAddPage d h first =>
-      SpInsert d (if first then O else length (pd_all (pg_get w d))) (pg_operand_mark w h)
+      if pg_insertable w d h
+      then SpInsert d (if first then O else length (pd_all (pg_get w d))) (pg_operand_mark w h)
+      else SpInvalid                                   (* what cannot be a page is refused (repair 53c36690) *)
   | PoAddPageAt d h before r =>
       if pg_foreign_handle w d r then SpInvalid      (* a page of the other document is not a page of this one *)
       else
       match pg_index (pd_all (pg_get w d)) (pg_og_of w r) with
-      | Some k => SpInsert d (if before then k else S k) (pg_operand_mark w h)
+      | Some k => if pg_insertable w d h then SpInsert d (if before then k else S k) (pg_operand_mark w h) else SpInvalid
       | None => SpInvalid
       end
   | PoRemove d h =>
@@ -943,15 +945,17 @@ Qed.
 Lemma pg_step_insert : forall w d h n,
   pg_good w -> pg_operand_ok w d h -> (n <= length (pd_all (pg_get w d)))%nat ->
   let '(w', e) := pg_insert w d h (Z.of_nat n) in
-  let '(s', raise_) := pg_spec_step (pg_marks2 w) (SpInsert d n (pg_operand_mark w h)) in
+  let '(s', raise_) := pg_spec_step (pg_marks2 w) (if pg_insertable w d h then SpInsert d n (pg_operand_mark w h) else SpInvalid) in
   pg_marks2 w' = s' /\ pg_is_err (pg_res_of e) = raise_ /\ pg_good w'.
 Proof.
   intros w d h n Hg Hop Hn. destruct (pg_good_get w d Hg) as [Hi Hne].
-  destruct (pg_insert_ok w d h (Z.of_nat n) Hi Hne Hop) as (p' & Hrun & Hi' & Hne' & Hmk).
-  { unfold pg_len. lia. }
-  rewrite Hrun. cbn [pg_spec_step]. rewrite pg_marks2_sel, pg_marks_length.
-  assert (Nat.leb n (length (pd_all (pg_get w d))) = true) as -> by (apply Nat.leb_le; exact Hn).
-  rewrite pg_marks2_put, Hmk, Nat2Z.id. split; [reflexivity|]. split; [reflexivity|]. apply pg_good_put; assumption.
+  destruct (pg_insertable w d h) eqn:Hins.
+  - destruct (pg_insert_ok w d h (Z.of_nat n) Hi Hne Hop Hins) as (p' & Hrun & Hi' & Hne' & Hmk).
+    { unfold pg_len. lia. }
+    rewrite Hrun. cbn [pg_spec_step]. rewrite pg_marks2_sel, pg_marks_length.
+    assert (Nat.leb n (length (pd_all (pg_get w d))) = true) as -> by (apply Nat.leb_le; exact Hn).
+    rewrite pg_marks2_put, Hmk, Nat2Z.id. split; [reflexivity|]. split; [reflexivity|]. apply pg_good_put; assumption.
+  - unfold pg_insert. rewrite Hins. cbn. split; [reflexivity|]. split; [reflexivity|exact Hg].
 Qed.
 
 Lemma pg_og_local : forall w d h, pg_href_local d h -> pg_og_of w h = match pg_norm w h with PhObj _ i => i | PhDirect _ => 0 end.
@@ -1138,8 +1142,8 @@ Fixpoint pg_abs_hist (w : pg_world) (ops : list pg_op) : list pg_sop :=
    returns /Kids); (3) the first flattening of a nested tree and the empty list.  These three are covered by the
    model-vs-implementation correspondence and the specification oracle of harness/c13.py only.
    A handle of the other document given to removePage / addPageAt is inside the theorem (it is rejected:
-   foreign_handle_rejected, repair 87382fd8); the not-a-page operands, where the full statement is FALSE for qpdf, are
-   the refuted lemmas below. *)
+   foreign_handle_rejected, repair 87382fd8), so is an operand that cannot be a page (insert_non_page_rejected, repair
+   53c36690); the null operand, where the full statement is still FALSE for qpdf, is the refuted lemma below. *)
 Lemma pages_refine_list_partial_lemma : forall ops w, pg_good w -> pg_hist w ops ->
   pg_spec_run (pg_marks2 w) (pg_abs_hist w ops) = pg_trace w ops /\ pg_good (pg_run w ops).
 Proof.
@@ -1199,14 +1203,41 @@ Proof.
   repeat split; try exact H; discriminate.
 Qed.
 
-(* FULL STATEMENT that fails: "an insertion call whose operand cannot be a page (not a dictionary) raises and leaves the
-   page list unchanged".  Pages::insert never looks at the type of newpage: the integer 5 becomes the third "page". *)
-Lemma insert_non_page_rejected_refuted_lemma :
-  exists w d v, pg_good w /\ (forall l, v <> PvDict l) /\
-    pg_is_err (snd (pg_step w (PoAddPage d (PhDirect v) false))) = false /\
-    pg_marks2 (fst (pg_step w (PoAddPage d (PhDirect v) false))) <> pg_marks2 w.
+(* An insertion call whose operand cannot be a page - anything that is neither null nor a dictionary (integer, array,
+   stream ...), a /Pages node, the catalog - raises and changes NOTHING, in every state of the two documents (repair
+   53c36690 in /repo; before it the integer 5 became the third "page", see insert_null_rejected_refuted for what is
+   left). *)
+Lemma insert_non_page_rejected_lemma : forall w d h,
+  pg_insertable w d h = false ->
+  (forall pos, pg_insert w d h pos = (w, Some PeRt)) /\
+  (forall first, exists e, pg_step w (PoAddPage d h first) = (w, PrErr e)) /\
+  pg_step w (PoHAddPage d h true) = (w, PrErr PeRt).
 Proof.
-  exists pg_ex_world, false, (PvInt 5). split; [exact pg_ex_good|]. split; [discriminate|].
+  intros w d h H. assert (Hi : forall pos, pg_insert w d h pos = (w, Some PeRt)).
+  { intros pos. unfold pg_insert. rewrite H. reflexivity. }
+  split; [exact Hi|]. split.
+  - intros first. cbn [pg_step]. destruct first; [rewrite Hi; eexists; reflexivity|].
+    destruct (pg_rv _ _); try (eexists; reflexivity). rewrite Hi. eexists; reflexivity.
+  - cbn [pg_step]. rewrite Hi. reflexivity.
+Qed.
+
+(* the classes the lemma above speaks about are what the property calls "cannot be a page" *)
+Lemma insert_non_page_direct_classes_lemma : forall w d v,
+  (v <> PvNull /\ (forall l, v <> PvDict l) /\ (forall i, v <> PvRef i)) -> pg_insertable w d (PhDirect v) = false.
+Proof.
+  intros w d v (Hn & Hd & Hr). unfold pg_insertable. cbn [pg_norm].
+  destruct v; try congruence; try reflexivity; exfalso; first [eapply Hr; reflexivity | eapply Hd; reflexivity].
+Qed.
+
+(* FULL STATEMENT that still fails: "an insertion call whose operand is null raises and leaves the page list unchanged".
+   Pages::insert lets a null through on purpose (the C API maps an unknown handle to null and qpdf's test
+   c-api-page "C page errors" fixes the warning that results): the null is made indirect and appended to /Kids. *)
+Lemma insert_null_rejected_refuted_lemma :
+  exists w d, pg_good w /\
+    pg_is_err (snd (pg_step w (PoAddPage d (PhDirect PvNull) false))) = false /\
+    pg_marks2 (fst (pg_step w (PoAddPage d (PhDirect PvNull) false))) <> pg_marks2 w.
+Proof.
+  exists pg_ex_world, false. split; [exact pg_ex_good|].
   split; vm_compute; [reflexivity|discriminate].
 Qed.
 
